@@ -113,7 +113,7 @@ func TestC25(t *testing.T) {
 	if weak {
 		combos = append(combos, combo{tls.VersionTLS12, tls.DISABLED_TLS_RSA_WITH_AES_256_CBC_SHA256, true}, combo{tls.VersionTLS12, tls.DISABLED_TLS_ECDHE_ECDSA_WITH_AES_256_CBC_SHA384, true}, combo{tls.VersionTLS12, tls.DISABLED_TLS_ECDHE_RSA_WITH_AES_256_CBC_SHA384, true})
 	}
-	sizes := []int{0, 1, 2, 15, 16, 17, 16383, 16384, 16385, 32768}
+	sizes := []int{0, 1, 2, 15, 16, 17, 16383, 16384, 16385, 32768, 150000} // the last one takes the writer past the ramp-up of dynamic record sizing, into full-size records
 	client := Target{Name: "all-suites", Spec: allSuitesSpec(weak)}
 	reps := mon.Pick(4, 300)
 	type job struct {
